@@ -36,7 +36,7 @@ func init() {
 			"*Exception pointer identity is asserted only when the raiser panicked with / returned an *Exception and no script catch or finally frame lies between it and the host",
 			"ECMA-262 IteratorClose: an exception thrown by return() is ignored when the loop is left by a throw and replaces the completion when it is left by return/break or when a destructuring pattern ends; a non-goja panic in return() is not an exception and must reach the host in both cases; an iterator whose next() throws is not closed",
 			"iterate()-based built-ins (IfAbruptCloseIterator): a throw from the per-element callback closes the iterator (return()'s own throw ignored) and goes on; an uncatchable condition, bare or wrapped through any %w chain, passes without return() / a generator's finally block running; a non-goja panic from the callback passes without return() being called, one raised by return() reaches the host",
-			"Runtime.ForOf driven by a native frame over a script iterable: the step callback stops after the first value (return() is called, what it throws replaces the completion); a script exception leaving the step callback closes the iterator and goes on; an exception thrown by next() does not close it; an uncatchable condition (bare or %w-wrapped) or a foreign panic passes without return() running. KNOWN DEVIATION, asserted only with VERIF_C14_FOROF_GO_ORIGINAL_WINS=1: when the step callback threw and return() throws too, ForOf lets return()'s exception supersede the original one (in a for-of loop the original wins)",
+			"Runtime.ForOf driven by a native frame over a script iterable: the step callback stops after the first value (return() is called, what it throws replaces the completion); a script exception leaving the step callback closes the iterator and goes on; an exception thrown by next() does not close it; an uncatchable condition (bare or %w-wrapped) or a foreign panic passes without return() running; when the step callback threw and return() throws too, the original exception wins, as in a for-of loop",
 			"a foreign panic raised synchronously ends the outermost call before the promise job queue is drained: jobs pending at that point need not run",
 			"after rt.Interrupt() inside a native that is not followed by any VM instruction the interrupt stays pending (documented: it only works while in JavaScript code); the host clears it before reusing the runtime",
 		},
